@@ -68,8 +68,8 @@ def _cases() -> List[dict]:
 def plan(tier: str) -> dict:
     cases = _cases()
     return {
-        "runs": 3000 if tier == "quick" else 200000,
-        "budget": 70 if tier == "quick" else 900,
+        "runs": 12000 if tier == "quick" else 200000,
+        "budget": 150 if tier == "quick" else 900,
         "cases": cases,
         "chunk": 40,
         "rule": "Every await point of the base programs (read-then-respond, respond-then-read, streaming with and "
